@@ -67,7 +67,9 @@ META = {
     "C11": m("TLC explores every fault schedule of the byte stream on the adapter model (LossFree, ReadExact); the real "
              "adapter runs over fault-injecting Read/Write for every schedule up to a depth (u8..u32), every single "
              "fault (u64, u128) and random schedules, and every call into the byte stream and adapter return is "
-             "validated by TLC against the model; bit streams through the adapter are validated like memory backends.",
+             "validated by TLC against the model; bit streams through the adapter (over a sink that takes 1..5 bytes per "
+             "call) are validated like memory backends, a successful flush must reach the backend's flush(), and seeks "
+             "are checked from byte positions inside a word (after a transfer that failed half way).",
              "DESIGN.md §7 C11", "TLA+ fault model checked by TLC (all schedules) + TLC trace validation of fault-injected runs"),
     "C12": m("std::io::Write::write of 0..40 bytes from every space_left state of every writer configuration and "
              "std::io::Read::read of 0..40 bytes from every fill state of every reader are validated by TLC "
@@ -76,15 +78,19 @@ META = {
     "C13": m("TLC explores the complete state graph of the four word streams over small arrays (cursor invariants, "
              "determinism) and emits one history per state; every state x every call, every call sequence of bounded "
              "length and long random sequences are executed on the real types (u8..u128, owned/borrowed) and validated "
-             "by TLC against WordBackend.", "DESIGN.md §7 C13"),
+             "by TLC against WordBackend; positions up to 2^64-1 (kept as bit sequences) are exact on the zero-extended "
+             "reader and rejected without moving by the others.", "DESIGN.md §7 C13"),
     "C14": m("Random histories through CountBitWriter/Reader, DbgBitWriter/Reader and their composition; values, bytes, "
              "positions and the public counter after every call (including skip-after-peek based codes, flushes and "
-             "copies) are validated by TLC against the abstract machine's count.", "DESIGN.md §7 C14"),
+             "copies, wrappers created on a reader that is not at bit 0, and the counter after a copy that failed because "
+             "the source ran out) are validated by TLC against the abstract machine's count.", "DESIGN.md §7 C14"),
     "C15": m("TLC explores every interleaving of threads updating through the lock; snapshots of all 55 tracked totals, "
              "merges in every style and order, wrapper-observed writes/reads, 2/4/8 real threads and best_code answers "
-             "are validated by TLC, which recomputes the totals with Codes!CLen in exact arithmetic.", "DESIGN.md §7 C15"),
+             "are validated by TLC, which recomputes the totals with Codes!CLen in exact arithmetic; five instantiations "
+             "of the const parameters, uniform and geometric data so that every tracked Golomb code wins somewhere.", "DESIGN.md §7 C15"),
     "C16": m("Display->FromStr for every variant x parameter, token-level malformed strings, identifier round trips by "
-             "name, out-of-range identifiers and equality => identical codewords are validated by TLC against "
+             "name, out-of-range identifiers and equality => identical codewords (malformed text: unknown names, missing, "
+             "empty, negative, non-numeric, unterminated and overflowing parameters just above usize::MAX) are validated by TLC against "
              "Dispatch (grammar on tokens, ConstCodeOf, SameCodewords).", "DESIGN.md §7 C16"),
     "C17": m("TLC checks bijection/inverse/formula over the whole 8-, 12-, 16-bit types and the agreement of the "
              "two's-complement vector forms; real to_nat/to_int on all 8/16-bit values and on neighbourhoods of 0, MIN, "
@@ -93,7 +99,8 @@ META = {
              "encoded and validated segment by segment.", "DESIGN.md §7 C17, §13.5"),
     "C18": m("Byte-level VByte writes/reads (all entry points) on dense, boundary and random values and every "
              "terminated byte string of bounded length are validated by TLC against Codes (bytes, values, lengths, "
-             "completeness); the bit-stream VByte codes are validated against the same definitions.", "DESIGN.md §7 C18"),
+             "completeness), into plain, short-writing and bounded sinks; the bit-stream VByte codes are validated against "
+             "the same definitions, also at every split point of the end of strict streams.", "DESIGN.md §7 C18"),
     "C19": m("The same drivers in the build variants {release, dev} x {default, checks, no_copy_impls, both}; every trace "
              "must be a behaviour of the same specification, in which only write_bits may panic and exactly when the "
              "build checks and the argument is dirty (the dirty driver issues every n x every single dirty bit).",
@@ -101,5 +108,6 @@ META = {
     "C20": m("TLC checks safety and termination of the iterator model for every monotone step function at small widths; "
              "real length functions scanned below 2^upto are monotone with change points validated against CLen; the real "
              "iterator on every library length function and on synthetic step functions (watchdog on evaluations) is "
-             "validated yield by yield, and Kraft's inequality is evaluated by TLC in exact arithmetic.", "DESIGN.md §7 C20"),
+             "validated yield by yield, and Kraft's inequality is evaluated by TLC in exact arithmetic; the implied "
+             "distribution (128-bit cut, bracket probabilities as exact doubles, samples) is validated too.", "DESIGN.md §7 C20"),
 }
